@@ -124,10 +124,11 @@ FLOAT_INF = 2 ** 1024 - 2 ** 970        # decimal strings at or above this magni
 FLOAT_INF_DIGITS = len(str(FLOAT_INF))  # 309
 
 
-def kf_class(d, s):
+def kf_class(d, s, inl=None):
     """Known-finding class of a deviation on (datatype, string), or None.  Each class is decided on the input alone
     and is exactly the set of strings on which acceptance differs from the lexical space."""
-    inl = lex(d, s)
+    if inl is None:
+        inl = lex(d, s)
     if d == "Length":
         return "C19-length-unchecked" if (not inl and s != "") else None
     if d in ("int", "NumInGroup", "SeqNum", "DayOfMonth"):
@@ -279,6 +280,19 @@ def rand_member(rng, d):
     raise KeyError(d)
 
 
+def heavy(d):
+    """Very long boundary strings (thousands of digits): costly in the extracted model, used for one name per family."""
+    if d in ("int", "Length", "NumInGroup", "SeqNum", "DayOfMonth"):
+        return ["-" + "1" * 4300, "-" + "1" * 4301, "0" * 4300, "0" * 4301, "0" * 4299 + "1", "0" * 4300 + "1", "0" * 4298 + "31",
+                "0" * 4299 + "31", "0" * 4299 + "32", "1" * 4300 + " ", "1" * 4299 + "_1", "1" * 5000, "-" + "0" * 4301, "+" + "1" * 4300]
+    if d == "float":
+        return ["0" * 5000 + "1", "0" * 5000 + ".1", "1" * 4301 + ".0", "1" * 308 + "." + "1" * 5000, "1" * 309 + "." + "0" * 3000]
+    return []
+
+
+HEAVY_NAMES = ("INT", "SEQNUM", "DAYOFMONTH", "FLOAT", "PRICE")
+
+
 def boundary(d):
     """Boundary members and non-members of the lexical space of d."""
     out = []
@@ -287,9 +301,7 @@ def boundary(d):
                 " 1", "1 ", "1\n", "\t1", "1_0", "1__0", "_1", "1_", "1.0", "10.2", "1e1", "0x1", "0b1", "0o1", "١", "１",
                 "٣1", "as", "-", "--1", "-+1", "- 1", "1-", "2147483647", "2147483648", "9223372036854775808",
                 "-9223372036854775809", "1" * 50, "1\x00", "\x001", "1\xa0", "\xa01", "\x851", "1\x1f", "1 ", "﻿1",
-                "1" * 4300, "1" * 4301, "-" + "1" * 4300, "-" + "1" * 4301, "0" * 4300, "0" * 4301, "0" * 4299 + "1",
-                "0" * 4300 + "1", "0" * 4298 + "31", "0" * 4299 + "31", "0" * 4299 + "32", "1" * 4300 + " ", "1" * 4299 + "_1",
-                "1" * 5000, "-" + "0" * 4301, "+" + "1" * 4300]
+                "1" * 4300, "1" * 4301]
     if d == "float":
         t = FLOAT_INF
         out += ["0", "-0", "0.0", "-0.0", "1", "1.", ".1", "-.1", "-1.", ".", "-.", "-", "+1", "+.1", "1.1.", "1..1", "..1", "1.1.1",
@@ -300,7 +312,7 @@ def boundary(d):
                 str(t - 1)[:-1] + "." + str(t - 1)[-1] + "999", str(t * 10)[:-1] + "." + str(t * 10)[-1], str(t * 10 - 1)[:-1] + "." + str(t * 10 - 1)[-1],
                 "000" + str(t), "000" + str(t - 1), str(t) + "." + "0" * 50, str(t - 1) + "." + "9" * 50,
                 "1" + "0" * 308, "1" + "0" * 309, "9" * 308, "9" * 309, "1" + "0" * 400, "1" + "0" * 400 + ".5", "-1" + "0" * 400,
-                "0" * 5000 + "1", "0" * 5000 + ".1", "1" * 4301 + ".0", "1" * 308 + "." + "1" * 5000, "1e400", "1e309", "1e308",
+                "1e400", "1e309", "1e308",
                 "1.7976931348623157e308", "1.7976931348623159e308", "17976931348623157" + "0" * 292, "17976931348623158" + "0" * 292,
                 "17976931348623159" + "0" * 292]
     if d in ("char", "Boolean", "String", "MultipleValueString", "data"):
@@ -423,11 +435,14 @@ def type_groups(ctx, maxlen):
         if name not in TYPE_NAMES:          # other spellings of a name (ftype.upper()): boundary values only
             groups.append(Group("1", name, label="type:" + name, strings=strs))
             continue
+        if name in HEAVY_NAMES:
+            hv = heavy(d)
+            strs += hv + [rand_edit(rng, b, alpha) for b in hv[:ctx.scale(4, 14)]]
         p_all = ctx.scale(0.25, 1.0) if len(bnd) < 500 else ctx.scale(0.03, 0.4)
         for b in bnd:
             if len(b) <= 24:
                 strs += one_edits(b, alpha) if rng.random() < p_all else [rand_edit(rng, b, alpha) for _ in range(4)]
-            else:
+            elif len(b) <= 1000:
                 strs += [rand_edit(rng, b, alpha) for _ in range(3)]
         for _ in range(n_rand):
             m = rand_member(rng, d)
@@ -512,7 +527,7 @@ def run_impl(groups):
     return res
 
 
-LINE_STRINGS = 4000
+LINE_STRINGS = 150      # Coq's List.rev is quadratic: keep the lists parsed by Sx short
 
 
 def model_lines(groups):
@@ -556,14 +571,15 @@ def run_model(ctx, groups, workers=8):
 
 
 def expected(g, s):
-    """Oracle: (accept?, datatype) demanded by the property for this field and string; None = not defined."""
+    """Oracle: (accept?, datatype, in lexical space?) demanded by the property for this field and string; None = not defined."""
     if g.values:
-        return (s != "" and s in set(g.values)), None
+        return (s != "" and s in g.values), None, None
     d = DATATYPE_OF.get(g.ftype.upper())
     if d is None:
-        return None, None
-    ok = lex(d, s) or (g.tag == "16" and s == "0")       # EndSeqNo = 0 means "infinity" and is part of that field's space
-    return ok, d
+        return None, None, None
+    inl = lex(d, s)
+    ok = inl or (g.tag == "16" and s == "0")       # EndSeqNo = 0 means "infinity" and is part of that field's space
+    return ok, d, inl
 
 
 def judge(ctx, g, s, code):
@@ -572,13 +588,13 @@ def judge(ctx, g, s, code):
         ctx.fail(g.case(s), "rejection/return is not the library's message error: %s" % (
             {3: "AssertionError", 4: "ValueError"}.get(code, code)), None)
         return
-    want, d = expected(g, s)
+    want, d, inl = expected(g, s)
     if want is None:
         if g.in_dict:
             ctx.fail(g.case(s), "datatype %s is used by a dictionary but is not validated (unsupported datatype)" % g.ftype, None)
         return
     got = code in (0, 1)
-    cls = kf_class(d, s) if (d is not None and not (g.tag == "16" and s == "0")) else None
+    cls = kf_class(d, s, inl) if (d is not None and not (g.tag == "16" and s == "0")) else None
     if code == 1:
         ctx.fail(g.case(s), "datatype %s (%s) falls through to the unsupported-datatype warning" % (g.ftype, d), None)
     elif got != want:
@@ -590,8 +606,15 @@ def judge(ctx, g, s, code):
 
 
 def evaluate(ctx, groups, use_model=True):
+    import time
+    t0 = time.time()
     impl = run_impl(groups)
+    t1 = time.time()
     model = run_model(ctx, groups) if (use_model and ctx.model) else None
+    t2 = time.time()
+    tm = ctx.extra.setdefault("harness_seconds", {"implementation": 0.0, "model": 0.0})
+    tm["implementation"] = round(tm["implementation"] + t1 - t0, 1)
+    tm["model"] = round(tm["model"] + t2 - t1, 1)
     for gi, g in enumerate(groups):
         kind = g.label.split(":")[0]
         ic = impl[gi]
@@ -628,6 +651,8 @@ def dictionary_facts(ctx, dicts):
 
 
 def run(ctx):
+    import time
+    t_start = time.time()
     dicts = load_dictionaries()
     dictionary_facts(ctx, dicts)
     groups = corpus() + type_groups(ctx, ctx.scale(4, 4)) + dictionary_groups(ctx, dicts)
@@ -638,6 +663,7 @@ def run(ctx):
     g0 = next(g for g in groups if g.label == "type:UTCTIMESTAMP")
     ctx.samples.append({"field": ["1", "UTCTIMESTAMP", []], "strings": g0.strings[-4:], "impl": run_impl([Group("1", "UTCTIMESTAMP", strings=g0.strings[-4:])])[0]})
     ctx.extra["groups"] = len(groups)
+    ctx.extra["harness_seconds"]["total"] = round(time.time() - t_start, 1)
 
 
 def corpus():
@@ -674,7 +700,7 @@ def replay(path):
         return 1
     g = Group(case["tag"], case["ftype"], case.get("values", ()), "replay", [case["s"]])
     code = run_impl([g])[0][0]
-    want, d = expected(g, case["s"])
+    want, d, _ = expected(g, case["s"])
     names = {0: "accepted", 1: "accepted with unsupported-datatype warning", 2: "FIXMessageError", 3: "AssertionError", 4: "ValueError"}
     print("field tag=%s type=%s values=%s value=%r" % (g.tag, g.ftype, list(g.values)[:8], case["s"]))
     print("implementation: %s" % names.get(code, code))
